@@ -71,7 +71,7 @@ def exec_session(job):
     for fb in scj["fb"]:
         stream += bytearray(fb)
     sim.reset_random(1)
-    ev = vsock.session(chunks_of(stream, sizes), addr=("10.0.0.1", 4000), delay=delay)
+    ev = vsock.session(chunks_of(stream, sizes), addr=("10.0.0.1", 4000), delay=delay, size=sc.get("limit"))     # (the --size option)
     final = dev.get_mem()
     nacc = acc[0]
     # the listener / other sessions keep working: a new connection registers and lists services
